@@ -88,10 +88,16 @@ def cases(tier, seed):
         cs.append({'scen': 'c18_unary_args', 's': {'what': 'to_qtt', 'd': d, 'B': 4 if d == 1 else 3, 'class_check': True}})
     for d, do in [(2, 1), (2, 2), (3, 2), (3, 1), (2, 3)]:
         cs.append({'scen': 'c18_unary_args', 's': {'what': 'qtt_to_tens', 'd': d, 'do': do, 'B': 2}})
+    for d in (1, 2, 3):
+        for form in ('two', 'neg_all', 'one'):
+            cs.append({'scen': 'c18_unary_args', 's': {'what': 'reshape_negative', 'd': d, 'B': 3, 'form': form}})
+        for k in (-1, 0, 1, 2):
+            if d + k >= 1:
+                cs.append({'scen': 'c18_unary_args', 's': {'what': 'apply_mask_cols', 'd': d, 'B': 3, 'k': k, 'class_check': False}})
     # wrong argument types
     table = {
-        'add': ('str', 'none', 'list', 'dict'), 'radd': ('str', 'none', 'list'), 'sub': ('str', 'none', 'list'), 'mul': ('str', 'none', 'list', 'dict'),
-        'matmul': ('str', 'none', 'list'), 'truediv': ('str', 'none', 'list'), 'kron': ('str', 'list', 'dense', 'none'), 'pow': ('str', 'list', 'dense'),
+        'add': ('str', 'none', 'list', 'dict', 'dense', 'vec', 'col'), 'radd': ('str', 'none', 'list'), 'sub': ('str', 'none', 'list', 'dense', 'vec', 'col'), 'mul': ('str', 'none', 'list', 'dict', 'dense', 'vec', 'col'),
+        'matmul': ('str', 'none', 'list'), 'truediv': ('str', 'none', 'list', 'dense', 'vec', 'col'), 'kron': ('str', 'list', 'dense', 'none'), 'pow': ('str', 'list', 'dense'),
         'dot': ('str', 'none', 'dense'), 'dot_first': ('str', 'none', 'dense'), 'bilinear': ('str', 'none', 'dense'), 'diag': ('str', 'none', 'dense', 'list'),
         'permute': ('str', 'none', 'dense'), 'save': ('str', 'none', 'dense', 'list'), 'fast_matvec': ('str', 'none', 'dense'), 'zeros': ('str', 'none'),
         'ones': ('str', 'none'), 'sum': ('str', 'dict'), 'getitem': ('str', 'none', 'list', 'dict'), 'mprod': ('str', 'none', 'list'), 'ctor': ('str', 'dict'),
